@@ -2,6 +2,7 @@ package c14
 
 import (
 	"os"
+	"strings"
 	"testing"
 )
 
@@ -14,7 +15,7 @@ func FuzzText(f *testing.F) {
 		f.Skip("native fuzzing runs in the thorough tier only")
 	}
 	seeds := map[string][]string{
-		"Date": {"2024-02-29", "", "2023-02-29", "0001-01-01"}, "DateTime": {"2024-06-01 12:34:56 UTC", "2024-06-01 12:34:56", "2024-06-01 24:00:00 +0330", "2024-06-01 12:34:56.789 UTC", "2024-06-01 12:34:56,5"},
+		"Date": {"2024-02-29", "", "2023-02-29", "0001-01-01"}, "DateTime": {"2024-06-01 12:34:56 UTC", "2024-06-01 12:34:56", "2024-06-01 24:00:00 +0330", "2024-06-01 12:34:56.789 UTC", "2024-06-01 12:34:56,5", "0001-01-01 0:00:00 +0030", "0001-01-02 00:00:00 +0030"},
 		"HHmm": {"08:30", "24:00", "23:60"}, "SystemTime": {"23:59:59"}, "PIN": {"0", "999999", "1000000"}, "ControlState": {"normally open", "controlled"},
 		"TaskType": {"control door", "13", "0"}, "CardFormat": {"any", "Wiegand-26"}, "Version": {"v8.92", "0892"}, "MacAddress": {"00:66:19:39:55:2d"},
 		"BindAddr": {"0.0.0.0:0", "192.168.1.100:60001"}, "BroadcastAddr": {"255.255.255.255:60000"}, "ListenAddr": {"0.0.0.0:60001"}, "ControllerAddr": {"192.168.1.100:60000"},
@@ -57,6 +58,12 @@ func FuzzText(f *testing.F) {
 				t.Fatalf("[%s/panic] parsing %q panicked: %v", as, text, pnc)
 			}
 			if err != nil || got == "" {
+				continue
+			}
+			if strings.HasPrefix(got, "0001-01-01") || strings.HasPrefix(got, "0000-") || strings.HasPrefix(got, "-") {
+				// (a value on the first day of the year 1, read in some zone, may BE the zero instant when its text is read in the
+				// process zone - the library's 'no value', which prints as the empty string: section 3 rule 1 places these outside the
+				// judged domain)
 				continue
 			}
 			again, err2, pnc2 := parseAs(as, got)
